@@ -39,7 +39,8 @@ type outcome struct {
 	evs      []ev
 	adds     []reflog.Call // every AddSequencedLeaves request the destination received, in order
 	dst      *dest
-	stormed  bool
+	stormed   bool
+	stormKind string
 }
 
 type nopLogger struct{}
@@ -72,14 +73,16 @@ func runCase(t *testing.T, c *Case, tr []truth, full *mtree.Tree) *outcome {
 		ctx, abortAll := context.WithCancel(ctx)
 		defer abortAll()
 		var omu sync.Mutex
-		src := newSource(c, tr, rec, func(reason string) {
+		abort := func(reason string) {
 			omu.Lock()
-			o.stormed = true
+			o.stormed, o.stormKind = true, reason
 			omu.Unlock()
 			rec.add(ev{Kind: "cancel", CancelReason: reason})
 			abortAll()
-		})
+		}
+		src := newSource(c, tr, rec, abort)
 		d := newDest(c, tr, full, rec)
+		d.abort = abort
 		o.dst = d
 		for p := 0; p < c.Passes && ctx.Err() == nil; p++ {
 			rec.setPass(p)
